@@ -29,7 +29,11 @@ EXPLANATION = (
     "facts` a fact is inserted iff the test is false (if / continue / nested / comprehension filter alike); after goal literals are "
     "merged, every path to the function's exit rebinds them through a set. C17.dummy: every store into the combination whose content "
     "does not come from an agent file (the dummy predicate / actions) is unreachable when add_dummy_actions is false, which is the "
-    "default; combine_problems has no such store at all."
+    "default; combine_problems has no such store at all; a predicate constant that the added actions mention is stored into the combination's "
+    "predicates under its own name on every path that adds them (the exported domain must not use an undeclared predicate). C17.fields also: "
+    "the name of the combination is taken from the name of the agent file for every file (an empty name cannot be exported and parsed back); "
+    "the parser object an agent file is read with is constructed with the options under which it returns the whole file (FULL_PARSE_OPTIONS: "
+    "partial_parsing false, explicitly or by default)."
 )
 UNDECIDED = ("independence from the discovery order for overlapping keys with different values (last file wins for name / requirements); "
              "equality after exporting and re-parsing the combination; whether the snapshot of known ground texts is taken before or "
@@ -150,6 +154,16 @@ class _View:
                     add(n, fld, "call", args[1:] if keyed else args, args[:1] if keyed else [], base_of(n.func.value))
             elif isinstance(n, ast.Assign):
                 for t in n.targets:
+                    if isinstance(t, (ast.Tuple, ast.List)) and isinstance(n.value, (ast.Tuple, ast.List)) and len(t.elts) == len(n.value.elts) \
+                            and not any(isinstance(e_, ast.Starred) for e_ in list(t.elts) + list(n.value.elts)):
+                        # a.x, a.y = b.x, b.y: one assignment per position
+                        for te, ve in zip(t.elts, n.value.elts):
+                            if isinstance(te, ast.Attribute) and self.is_dst(self.trace(te.value)):
+                                add(n, te.attr, "assign", [ve], [], base_of(te.value))
+                            elif isinstance(te, ast.Subscript):
+                                for fld in sorted(self.dst_fields(self.trace(te.value))):
+                                    add(n, fld, "setitem", [ve], [] if isinstance(te.slice, ast.Slice) else [te.slice], base_of(te.value))
+                        continue
                     if isinstance(t, ast.Subscript):
                         for fld in sorted(self.dst_fields(self.trace(t.value))):
                             add(n, fld, "setitem", [n.value], [] if isinstance(t.slice, ast.Slice) else [t.slice], base_of(t.value))
@@ -343,15 +357,115 @@ def _check_loop(r: RuleResult, v: _View, fields: Tuple[str, ...], what: str) -> 
         r.ok({"function": f.qn, "merges_on_every_path": sorted({fld for pf in heads.values() for fld in pf})})
 
 
+# scalar fields that identify the combination: the exporters write `(define (domain <name>)` / `(define (problem <name>)`, an empty name
+# cannot be parsed back; the name is taken from the agent files (they all carry the same one)
+NAME_FIELD = "name"
+# constructor options of the parser of an agent file under which it returns the whole file; reason: with partial_parsing the domain
+# parser skips the :precondition / :effect sections, the actions of the union would be empty shells
+FULL_PARSE_OPTIONS = {"partial_parsing": False}
+
+
+def _check_name(r: RuleResult, v: _View, what: str) -> None:
+    """the name of the combination is taken from the name of an agent file, for every file that is merged"""
+    f, g = v.f, v.g
+    r.site(f"{f.qn} [{NAME_FIELD}]")
+    ms = v.merges(NAME_FIELD)
+    src = set().union(*[m.src for m in ms]) if ms else set()
+    if not ms:
+        r.fail(Finding("C17.fields", f, f"merge-missing:{NAME_FIELD}", f"combined_{what}.{NAME_FIELD} is never taken from the agent {what}s: the combination keeps the "
+                       f"constructor's placeholder, the exported file starts with `(define ({what} )` and cannot be parsed back"))
+        return
+    if src != {NAME_FIELD}:
+        r.fail(Finding("C17.fields", f, f"merge-crossed:{NAME_FIELD}", f"combined_{what}.{NAME_FIELD} is fed from agent_{what}.{sorted(src)}", node=ms[0].site))
+        return
+    heads: Dict[int, Set[int]] = {}
+    for m in ms:
+        h = v.file_loop_of(m.node)
+        if h is not None:
+            heads.setdefault(h, set()).add(v.representative(m.node, h))
+    skipped = False
+    for h, reps in heads.items():
+        for s_ in [b for b, l in g.succ[h] if l == "iter"]:
+            if s_ not in reps and h in C.reachable_from(g, s_, avoid=reps):
+                skipped = True
+    if not heads or skipped:
+        r.fail(Finding("C17.fields", f, f"merge-skipped:{NAME_FIELD}", f"combined_{what}.{NAME_FIELD} is not set for every discovered {what} file", node=ms[0].site))
+    else:
+        r.ok({f"combined_{what}.{NAME_FIELD}": f"taken from agent_{what}.{NAME_FIELD} for every file"})
+
+
+def _constructor_calls(v: _View, e: ast.AST, at: int, depth: int = 0) -> List[ast.Call]:
+    """the constructor calls (of classes of the library) that create the object `e` evaluates to; names are followed through plain assignments"""
+    if depth > 6:
+        return []
+    if isinstance(e, ast.Call):
+        nm = e.func.id if isinstance(e.func, ast.Name) else (e.func.attr if isinstance(e.func, ast.Attribute) else None)
+        if nm in v.repo.classes:
+            return [e]
+        return []
+    if isinstance(e, ast.IfExp):
+        return _constructor_calls(v, e.body, at, depth + 1) + _constructor_calls(v, e.orelse, at, depth + 1)
+    if isinstance(e, ast.Name) and isinstance(e.ctx, ast.Load):
+        out: List[ast.Call] = []
+        for d in sorted(v.p.rd.defs_reaching(at, e.id)):
+            st = v.g.stmt[d]
+            val = None
+            if isinstance(st, ast.Assign) and len(st.targets) == 1 and isinstance(st.targets[0], ast.Name):
+                val = st.value
+            elif isinstance(st, ast.AnnAssign) and isinstance(st.target, ast.Name):
+                val = st.value
+            elif isinstance(st, ast.With):
+                val = next((i.context_expr for i in st.items if isinstance(i.optional_vars, ast.Name) and i.optional_vars.id == e.id), None)
+            if val is not None:
+                out += _constructor_calls(v, val, d, depth + 1)
+        return out
+    return []
+
+
+def _check_full_parse(r: RuleResult, v: _View, what: str) -> None:
+    """the object the agent file is read with is configured to return the whole file"""
+    f, g, repo = v.f, v.g, v.repo
+    meth = v.marker.split(":", 1)[1]
+    for c in L.calls_in(f.node):
+        if not (isinstance(c.func, ast.Attribute) and c.func.attr == meth):
+            continue
+        at = g.node_containing(c)
+        if at is None or v.file_loop_of(at) is None:
+            continue        # not the parser of a discovered agent file
+        for ctor in _constructor_calls(v, c.func.value, at):
+            cname = ctor.func.id if isinstance(ctor.func, ast.Name) else ctor.func.attr
+            init = repo.find_method(cname, "__init__")
+            if init is None or any(isinstance(a, ast.Starred) for a in ctor.args) or any(k.arg is None for k in ctor.keywords):
+                continue
+            for opt, wanted in FULL_PARSE_OPTIONS.items():
+                if opt not in init.params:
+                    continue
+                r.site(f"{f.qn} [{cname}.{opt}]")
+                a = L.arg_of(ctor, init, opt)
+                where = f.mod.name
+                if a is None:
+                    a, where = init.defaults.get(opt), init.mod.name
+                ok, val = repo.fold(a, where) if a is not None else (False, None)
+                if ok and bool(val) != wanted:
+                    r.fail(Finding("C17.fields", f, f"agent-file-read-partially:{opt}", f"the agent {what} files are read with {cname}({opt}={val!r}): the parser leaves out "
+                                   f"parts of the file (preconditions and effects of the actions), the combination is not the union of what the files contain", node=ctor))
+                else:
+                    r.ok({"parser": cname, opt: val if ok else "not a constant (undecided)"})
+
+
 def rule_fields(repo: Repo) -> RuleResult:
     r = RuleResult("C17.fields", "each mergeable field of the combination is fed from the same-named field of every agent file",
                    "the union of types, constants, predicates, functions, actions / objects, facts, fluents, goals")
     d, q = _views(repo)
     _check_fields(r, d, DOMAIN_FIELDS, "domain")
     _check_loop(r, d, DOMAIN_FIELDS, "domain")
+    _check_name(r, d, "domain")
+    _check_full_parse(r, d, "domain")
     _check_fields(r, q, PROBLEM_FIELDS, "problem")
     _check_loop(r, q, PROBLEM_FIELDS, "problem")
-    r.require_sites(14)
+    _check_name(r, q, "problem")
+    _check_full_parse(r, q, "problem")
+    r.require_sites(16)
     return r
 
 
@@ -525,6 +639,75 @@ def rule_dedup(repo: Repo) -> RuleResult:
 
 
 # ------------------------------------------------------------------------------------------------ C17.dummy
+def _predicate_constant(repo: Repo, modname: str, name: str) -> Optional[str]:
+    """the predicate name of a module-level constant `X = Predicate(name=.., ..)`"""
+    d = repo.lookup(modname, name)
+    if not d or d[0] != "const" or not isinstance(d[1], ast.Call):
+        return None
+    call = d[1]
+    cn = call.func.id if isinstance(call.func, ast.Name) else (call.func.attr if isinstance(call.func, ast.Attribute) else None)
+    init = repo.find_method(cn, "__init__") if cn in repo.classes and "Predicate" in repo.mro(cn) else None
+    if init is None:
+        return None
+    a = L.arg_of(call, init, "name", 0)
+    ok, val = repo.fold(a, d[2]) if a is not None else (False, None)
+    return val if ok and isinstance(val, str) else None
+
+
+def _check_added_vocabulary(r: RuleResult, v: _View, G: "L.Guards") -> None:
+    f, g, repo = v.f, v.g, v.repo
+    modname = f.mod.name
+
+    def predicate_constants(e: ast.AST) -> Dict[str, str]:
+        out = {}
+        for x in v.trace(e):
+            if x[0].startswith("global:") and not any(s_.startswith(("attr:", "call:")) for s_ in x[1:]):
+                nm = _predicate_constant(repo, modname, x[0][7:])
+                if nm is not None:
+                    out[nm] = x[0][7:]
+        return out
+
+    # predicates mentioned by the fields of a fresh Action
+    used: Dict[str, List[Tuple[int, ast.AST]]] = {}
+    for n in ast.walk(f.node):
+        tgts, val = ([t for t in n.targets], n.value) if isinstance(n, ast.Assign) else (([n.target], n.value) if isinstance(n, ast.AnnAssign) and n.value is not None else ([], None))
+        for t in tgts:
+            if isinstance(t, ast.Attribute) and any(x == ("fresh:Action",) for x in v.trace(t.value)):
+                at = g.node_of(n)
+                if at is not None:
+                    for nm in predicate_constants(val):
+                        used.setdefault(nm, []).append((at, n))
+    if not used:
+        return
+    declared: Dict[str, Set[int]] = {}
+    for st in v.stores():
+        if st.field != "predicates" or st.src:
+            continue
+        for val in st.values:
+            for nm in predicate_constants(val):
+                keys_ok = True
+                for k in st.keys:
+                    ok, kv = repo.fold(k, modname)
+                    if ok:
+                        keys_ok = keys_ok and kv == nm
+                        continue
+                    names = {_predicate_constant(repo, modname, x[0][7:]) for x in v.trace(k) if x[0].startswith("global:") and x[1:] == ("attr:name",)}
+                    if names and None not in names:
+                        keys_ok = keys_ok and names == {nm}
+                if keys_ok:
+                    declared.setdefault(nm, set()).add(st.node)
+    for nm, sites in sorted(used.items()):
+        r.site(f"{f.qn} [predicate {nm} of the added actions]")
+        seen = G.reach({"dummy": True}, avoid=declared.get(nm, set()))
+        live = [site for at, site in sites if at in seen]
+        if g.exit in seen and live:
+            r.fail(Finding("C17.dummy", f, "added-predicate-undeclared", f"the added actions use the predicate `{nm}` ({unparse(live[0], 60)}) but it is not stored into the "
+                           f"combination's predicates under that name on every such path: the exported domain mentions an undeclared predicate and cannot be "
+                           f"parsed back", node=live[0]))
+        else:
+            r.ok({"predicate": nm, "declared_with_the_added_actions": True})
+
+
 def rule_dummy(repo: Repo) -> RuleResult:
     r = RuleResult("C17.dummy", "content that does not come from an agent file (dummy predicate / actions) is added only when add_dummy_actions is true",
                    "the combination is the union, nothing more")
@@ -548,6 +731,10 @@ def rule_dummy(repo: Repo) -> RuleResult:
     else:
         r.fail(Finding("C17.dummy", f, "dummy-unconditional", "dummy actions / predicate are added although add_dummy_actions is false" +
                        (f" ({unparse(leaked[0].site, 60)})" if leaked else ""), node=leaked[0].site if leaked else None))
+    # what the added content mentions is declared: a predicate in the effects / preconditions of an added (non-agent) action is stored into
+    # the combination's predicates under its own name on every path that adds the action -- otherwise the exported domain uses an
+    # undeclared predicate and cannot be parsed back
+    _check_added_vocabulary(r, v, G)
     # default False
     d = v.raw.defaults.get(PARAM)
     r.site(f.qn + " [default]")
